@@ -48,6 +48,19 @@ def apply_edit(repo: str, rel: str, qual: Optional[str], old: str, new: str, ove
     except (KeyError, SyntaxError):
         return False
     seg = src[a:b]
+    if old.startswith("WORD:"):
+        import re
+        pat = re.compile(r"(?<![\w.])" + re.escape(old[5:]) + r"(?![\w])")
+        if not pat.search(seg):
+            return False
+        seg = pat.sub(new, seg)
+        out = src[:a] + seg + src[b:]
+        try:
+            ast.parse(out)
+        except SyntaxError:
+            return False
+        overlay[rel] = out
+        return True
     everywhere = old.startswith("ALL:")
     if everywhere:
         old = old[4:]
